@@ -34,6 +34,7 @@ def main():
     ap.add_argument('--tier', default='quick')
     ap.add_argument('--keep', default=None)
     ap.add_argument('--needs', default='')
+    ap.add_argument('--history', default='')
     a = ap.parse_args()
     patch = os.path.abspath(os.path.join(a.dir, 'patch.diff'))
     demo = os.path.abspath(os.path.join(a.dir, 'demo.py'))
@@ -83,7 +84,7 @@ def main():
                                   'demo_exit_with_change': res['demo_mutant_rc']},
                     'what_i_ran': 'selftest/try_seed.py on scratch copies of /repo (patch -p1; pytest; demo.py; ./check with '
                                   'VERIF_REPO=<patched copy>)',
-                    'checks': res['checks'], 'tier': a.tier}
+                    'checks': res['checks'], 'tier': a.tier, 'history': a.history}
             with open(os.path.join(dst, 'meta.json'), 'w') as f:
                 json.dump(meta, f, indent=1)
     finally:
